@@ -59,6 +59,9 @@ PROPS = {
              "same", "histories with more than 64 component types (excluded by the property); panic messages",
              ["a harness whose checks pin results and panic/no-panic completely and passes under all four builds shows the builds equivalent on what it explores (equivalence via a common specification, not a product program)"],
              level="translation_validation", tagsets=["verif", "verif,ark_tiny", "verif,ark_debug", "verif,ark_tiny,ark_debug"]),
+    "C12": P("4 relation-world scenarios (target of two relation columns dies -> FreeTable map ranges; Reset then recycling of freed tables with different capacities, emptying, Shrink; target death + recycling; Shrink + recycling) executed twice: identity iteration order vs each of 24 permutation numbers applied to EVERY ranged map; digests (all issued handles, Filter0 and relation-query iteration order with targets, entity/archetype/table statistics) must be equal; SSA scan of package ecs listing every map range, goroutine, select, clock/random call and pointer-to-integer conversion: every map-range site must be executed by a scenario, any other source is reported",
+             "same", "different OS processes / hash seeds are represented by arbitrary map iteration order (the only process-dependent input the scan finds); the Go runtime itself; scenarios beyond the four",
+             ["map iteration order is the only source of run-to-run variation (established by the SSA scan, part of every run)"], scan=True),
     "C10": P("every rejected call of the C01/C04 step harnesses (dead entity: never reused and recycled id; duplicate / already present / missing component; dead or recycled relation target; exchange of same component) must panic and leave model, INV and lock state unchanged",
              "same", "batch operations (lock state covered by C07); *Unchecked accessors; typed arities > 2"),
     "C05": P("registered Filter1/Filter2 with FULLY symbolic with/without masks and symbolic relation target (filter or per query) over both shapes: the cached walk/Count equals the model set (= uncached semantics); register/unregister bookkeeping",
